@@ -96,5 +96,3 @@ func indent(s string, n int) string {
 	}
 	return strings.Repeat(" ", 4) + strings.Join(lines, "\n    ")
 }
-
-func runCheck(args []string) int { return 2 }
